@@ -15,7 +15,7 @@ OUT="$T/out.txt"
 VERIF_MODFILE="$T/go.mod" VERIF_WORK_SUFFIX="-mut$$" VERIF_SEED="${VERIF_SEED:-1}" ./check "$ID" "$TIER" -out "$T/ev.json" > "$OUT" 2>&1
 rc=$?
 [ -n "${KEEP_EV:-}" ] && cp "$T/ev.json" "$KEEP_EV" 2>/dev/null; [ -n "${KEEP_OUT:-}" ] && cp "$OUT" "$KEEP_OUT" 2>/dev/null
-H=$(echo "$T/go.mod" | md5sum | cut -c1-10); rm -rf "$ROOT/.work/$ID-mut$$" "$ROOT/.work/bin/"*.mut$H "$ROOT/.work/bin/"*.mut$H.race 2>/dev/null
+H=$(echo "$T/go.mod" | md5sum | cut -c1-10); rm -rf "$ROOT/.work/$ID-mut$$" "$ROOT/.work/bin/"*.mut$H "$ROOT/.work/bin/"*.mut$H.race "$ROOT/.work/bin/"*.mut$H.386 2>/dev/null
 if grep -q "^VIOLATION" "$OUT"; then
   echo "FIRED  $(basename "${PATCH%.*}") x $ID ($(grep -c '^VIOLATION' "$OUT") violation lines; first key: $(grep -m1 'key=' "$OUT" | sed 's/.*key=//'))"
   exit 0
